@@ -147,5 +147,104 @@ class Concurrent(Suite):
                     yield {"callers": cs, "ev": ev}
 
 
+
+
+class StdioBurst(Suite):
+    """One caller on a REAL stdio connection (StdioClient behind the scripted-process seam): the
+    child answers after a burst of K unrelated notifications written in one go.  K straddles the
+    size of the transport's incoming buffer.  No other waiter exists, so a lost response here is
+    never the known multi-caller finding."""
+
+    name = "stdio-burst"
+
+    def cases(self, ctx, budget):
+        ks = [0, 1, 3, 50, 99, 100, 101, 150, 400]
+        if budget != "quick":
+            ks += [98, 102, 199, 200, 201, 1000, 2500]
+        out = []
+        for k in ks:
+            for split in (False, True):
+                out.append({"k": k, "split": split, "id": f"burst-{k}", "D": 4 * P})
+        return out
+
+    def impl_batch(self, cases):
+        import anyio
+        import json as _json
+
+        from .. import stdio_h, vloop
+        from chuk_mcp.protocol.messages.send_message import send_message
+        from chuk_mcp.transports.stdio.parameters import StdioParameters
+
+        mod = stdio_h.stdio_module()
+        holder = {}
+
+        async def one(case):
+            lines = [_json.dumps({"jsonrpc": "2.0", "method": "notifications/message", "params": {"i": i}}) for i in range(case["k"])]
+            lines.append(_json.dumps({"jsonrpc": "2.0", "id": case["id"], "result": {"answer": case["k"]}}))
+            data = ("\n".join(lines) + "\n").encode()
+            chunks = [data] if not case["split"] else [data[: len(data) // 2], data[len(data) // 2:]]
+            proc = stdio_h.FakeProcess([("chunk", c) for c in chunks])
+            holder["proc"] = proc
+            client = mod.StdioClient(StdioParameters(command="verif-fake-child", args=[]))
+            proc.client = client
+            o = {}
+            try:
+                async with client:
+                    read, write = client.get_streams()
+                    try:
+                        o["p"] = await send_message(read, write, "tools/call", {"k": case["k"]},
+                                                    timeout=case["D"] * vloop.TICK, message_id=case["id"])
+                        o["outcome"] = "returned"
+                    except TimeoutError:
+                        o["outcome"] = "timeout"
+                    except Exception as ex:  # noqa
+                        o["outcome"] = "exception"
+                        o["exc"] = type(ex).__name__
+            except Exception as ex:  # noqa
+                o.setdefault("outcome", "harness-error")
+                o["exc"] = type(ex).__name__
+            return o
+
+        async def main():
+            return [await one(c) for c in cases]
+
+        saved = stdio_h._patched(mod, holder)
+        try:
+            return vloop.run(main)
+        finally:
+            stdio_h._restore(saved)
+
+    def model_line(self, case, o=None):
+        ev = [[1, {"k": "notif", "method": "notifications/message"}] for _ in range(case["k"])]
+        ev.append([1, {"k": "resp", "id": {"s": case["id"]}, "p": {"answer": case["k"]}}])
+        return {"m": "await", "id": {"s": case["id"]}, "D": case["D"], "P": P, "ev": ev, "eventsFirst": True}
+
+    def model_obs(self, out, case):
+        return {"outcome": out.get("outcome"), "p": out.get("p")}
+
+    def compare(self, case, o, m):
+        return None if (o.get("outcome"), o.get("p")) == (m.get("outcome"), m.get("p")) else "differs"
+
+    def kind(self, case, o):
+        return f"stdio-burst/{o.get('outcome')}/k{'<100' if case['k'] < 100 else '>=100'}"
+
+    def nontrivial(self, case, o):
+        return case["k"] > 0
+
+    def oracle(self, case, o):
+        if o.get("outcome") == "returned" and o.get("p") == {"answer": case["k"]}:
+            return None
+        if o.get("outcome") == "returned":
+            return ("cross-talk", f"single caller on stdio was handed {o.get('p')!r}", {"p": {"answer": case["k"]}})
+        if o.get("outcome") == "harness-error":
+            return None
+        return ("lost-response/other", f"single caller on a stdio connection: the response written after a burst of {case['k']} notifications never reached it ({o.get('outcome')})", {"outcome": "returned"})
+
+    def shrink_candidates(self, case):
+        for k in (100, 101, case["k"] // 2):
+            if 0 <= k < case["k"]:
+                yield dict(case, k=k, id=f"burst-{k}")
+
+
 def suites():
-    return [Concurrent()]
+    return [Concurrent(), StdioBurst()]
